@@ -15,15 +15,15 @@ fn c16_example_execute() {
 
     let gateway: Option<Address> = inst().pre(&DataKey::Gateway);
     let ph: BytesN<32> = env.crypto().keccak256(&payload).into();
-    assert!(
+    soroban_sdk::obl!(
         matches!(&gateway, Some(g) if shim::n_calls() == 1 && shim::call_is(0, g, "validate_message", &(me.clone(), sc.clone(), mid.clone(), sa.clone(), ph))),
         "OBL C16.example_asks_gateway: the configured gateway is asked to consume exactly (this app, source chain, message id, source address, keccak256(payload))"
     );
-    assert!(
+    soroban_sdk::obl!(
         shim::n_calls() == 1 && shim::call_ret::<bool>(0),
         "OBL C16.example_validates: the app's effects happen only if the gateway consumed an approval (validate_message returned true)"
     );
-    assert!(
+    soroban_sdk::obl!(
         shim::n_events() == 1 && shim::event_is(0, &(Symbol::new(&env, "executed"), sc.clone(), mid.clone(), sa.clone()), &(payload.clone(),)),
         "OBL C16.example_effect_exact: one `executed` event with the delivered values"
     );
@@ -44,8 +44,8 @@ fn c07_example_send() {
 
     let gateway: Option<Address> = inst().pre(&DataKey::Gateway);
     let gas: Option<Address> = inst().pre(&DataKey::GasService);
-    assert!(shim::authed(&caller), "OBL C07.example_send_needs_caller: gas is charged to `caller` only under the caller's authorisation");
-    assert!(
+    soroban_sdk::obl!(shim::authed(&caller), "OBL C07.example_send_needs_caller: gas is charged to `caller` only under the caller's authorisation");
+    soroban_sdk::obl!(
         matches!((&gateway, &gas), (Some(gw), Some(gs)) if shim::n_calls() == 2
             && shim::called(gs, "pay_gas", &(me.clone(), chain.clone(), dest.clone(), message.clone(), caller.clone(), gas_token.clone(), Bytes::new(&env)))
             && shim::called(gw, "call_contract", &(me.clone(), chain.clone(), dest.clone(), message.clone()))),
